@@ -306,6 +306,10 @@ fn run_arity(a: &Arity, seed: u64, rep: &mut Report) -> Vec<(String, String)> {
                 if c.verdict != Verdict::Again {
                     call_findings.push(("verdict".into(), format!("processed {steps} steps but verdict {:?}", c.verdict)));
                 }
+            } else if c.verdict == Verdict::WaitStream && c.need != 1 {
+                // One sample on the named stream is what the next step needs: asking for
+                // more makes a runner treat a shorter, ended stream as "never satisfiable".
+                call_findings.push(("wait-asks-for-more-than-one-step".into(), format!("verdict WaitForStream(.., {}) from a block that processes one sample per step; offered in {:?} out {:?}", c.need, c.offered_in, c.offered_out)));
             } else if min_in == 0 {
                 let first_empty = c.offered_in.iter().position(|&x| x == 0).unwrap();
                 let ok = c.verdict == Verdict::WaitStream && matches!(c.named, Some((true, i)) if c.offered_in[i] == 0);
